@@ -376,3 +376,71 @@ func c18Chunks(c *Ctx, r *Report, rule string) {
 	}
 	r.check(len(problems) == 0, rule, toName, "chunk splitting", c.pos(tf.Pos()), fmt.Sprintf("%d payload sizes", len(sizes)), strings.Join(problems, "; "))
 }
+
+// c18NarrowLen: a length guard decides on the real length. A `len(x)` converted to a narrower integer type before
+// it is compared wraps at 2^width: an input of size+k*2^width bytes passes an exact-size guard and is then parsed
+// from its first bytes only - the parser truncates instead of rejecting. Every comparison in the module whose
+// operand is such a converted length must have the length proven to fit the narrower type where it is converted.
+func c18NarrowLen(c *Ctx, r *Report, rule string) {
+	r.rule(rule, "no comparison on a truncated length: a len() converted to an 8- or 16-bit integer type and then compared (size guards of the parsers) has the length proven below 2^width at the conversion; otherwise inputs of size+k*2^width pass the guard and are parsed from a prefix", 0)
+	n := 0
+	for _, fn := range c.Funcs {
+		if len(fn.Blocks) == 0 {
+			continue
+		}
+		var p *prover
+		for _, b := range fn.Blocks {
+			for _, in := range b.Instrs {
+				cv, ok := in.(*ssa.Convert)
+				if !ok {
+					continue
+				}
+				call, ok := cv.X.(*ssa.Call)
+				if !ok || calleeID(call) != "builtin len" {
+					continue
+				}
+				bt, ok := cv.Type().Underlying().(*types.Basic)
+				if !ok || bt.Info()&types.IsInteger == 0 {
+					continue
+				}
+				var limit int64
+				switch bt.Kind() {
+				case types.Uint8:
+					limit = 1<<8 - 1
+				case types.Int8:
+					limit = 1<<7 - 1
+				case types.Uint16:
+					limit = 1<<16 - 1
+				case types.Int16:
+					limit = 1<<15 - 1
+				default: // 32-bit and wider: no buffer of this program comes near 2^31 bytes (C04.R2 bounds every per-connection allocation by 65 KiB)
+					continue
+				}
+				compared := false
+				if cv.Referrers() != nil {
+					for _, u := range *cv.Referrers() {
+						if bo, ok := u.(*ssa.BinOp); ok {
+							switch bo.Op {
+							case token.EQL, token.NEQ, token.LSS, token.LEQ, token.GTR, token.GEQ:
+								compared = true
+							}
+						}
+					}
+				}
+				if !compared {
+					continue
+				}
+				n++
+				if p == nil {
+					p = newProver(c, fn)
+				}
+				l := p.lin(cv.X)
+				ok = l.ok && p.entails(b, l, limit)
+				r.check(ok, rule, fname(fn), fmt.Sprintf("%s #%d", c.exprAt(fn, cv.Pos()), n), c.ipos(cv), "the length is proven to fit the narrower type", fmt.Sprintf("a length is converted to %s and then compared: lengths that differ by a multiple of %d are indistinguishable for the guard (an over-long input is accepted and parsed from its first bytes)", bt.Name(), limit+1))
+			}
+		}
+	}
+	if n == 0 {
+		r.ok(rule, "module", "no comparison on a converted length", "-", fmt.Sprintf("%d functions scanned: no len() is narrowed before a comparison", len(c.Funcs)))
+	}
+}
